@@ -9,6 +9,7 @@ import (
 
 	"github.com/openconfig/goyang/pkg/yang"
 	"verif/internal/dump"
+	"verif/internal/faults"
 	"verif/internal/job"
 	"verif/internal/prng"
 	"verif/internal/schema"
@@ -82,10 +83,14 @@ func Run(j *job.Job, s *job.Sink) {
 		for _, i := range order {
 			m := g.Mods[i]
 			t := schema.Print(m)
-			// some good texts carry a semantic error, so that errors too must be stable
-			if r.Intn(8) == 0 && strings.Contains(t, "type int8;") {
-				t = strings.Replace(t, "type int8;", "type int8 { range \"1..500\"; }", 1)
-				semantic = true
+			// some good texts carry a semantic error (18 kinds, detected in different places
+			// of the resolver), so that errors too must be stable
+			if r.Intn(6) == 0 {
+				if ft, kind := faults.Inject(r, t); kind != "" {
+					t = ft
+					semantic = true
+					s.Count("semantic_fault:"+kind, 1)
+				}
 			}
 			if r.Intn(3) == 0 {
 				var bt string
@@ -112,6 +117,61 @@ func Run(j *job.Job, s *job.Sink) {
 			}
 			if r.Intn(6) == 0 {
 				ops = append(ops, op{Kind: "process"})
+			}
+		}
+		// One history in four has a module in two revisions: the older one takes the place
+		// of the original text, the newer one (with one more top-level leaf and one more
+		// leaf in each of its top-level groupings, which the modules importing it expand)
+		// arrives later, usually after a Process has already linked everything to the old one.
+		if r.Intn(4) == 0 {
+			var cands []*schema.Mod
+			for _, m := range g.Mods {
+				// Only modules without submodules: with two revisions of a module that
+				// includes a submodule loaded together the outcome is not even repeatable
+				// (recorded finding c05-two-revisions-share-a-submodule), so no history
+				// could be blamed for a difference.
+				if !m.Sub && len(m.Includes) == 0 {
+					cands = append(cands, m)
+				}
+			}
+			if len(cands) == 0 {
+				cands = nil
+			}
+			m := &schema.Mod{Body: &schema.Scope{}}
+			if len(cands) > 0 {
+				m = cands[r.Intn(len(cands))]
+			}
+			v0 := schema.Print(m)
+			m.Revs = []string{"2019-01-01"}
+			v1 := schema.Print(m)
+			m.Revs = []string{"2020-02-02"}
+			extra := func(sc *schema.Scope, name string) {
+				sc.Items = append(sc.Items, &schema.Item{Node: &schema.Node{Kind: "leaf", Name: name, Type: &schema.TypeRef{Name: "string", Scope: sc}}})
+			}
+			extra(m.Body, "zzrev2")
+			for _, gr := range m.Body.Groupings {
+				extra(gr.Body, "zzrev2g")
+			}
+			v2 := schema.Print(m)
+			replaced := false
+			for k := range ops {
+				// only when the loaded text is the pristine one (no injected fault)
+				if ops[k].Kind == "load" && ops[k].Name == m.Name+".yang" && ops[k].Text == v0 {
+					ops[k].Text = v1
+					replaced = true
+				}
+			}
+			if replaced {
+				late := op{"load", m.Name + "@2020-02-02.yang", v2}
+				at := len(ops)
+				if r.Intn(3) == 0 {
+					at = r.Intn(len(ops) + 1)
+				}
+				ops = append(ops[:at], append([]op{late}, ops[at:]...)...)
+				if r.Intn(2) == 0 {
+					ops = append(ops, op{Kind: "process"})
+				}
+				s.Count("histories_with_a_late_newer_revision", 1)
 			}
 		}
 		ops = append(ops, op{Kind: "process"}, op{Kind: "read"}, op{Kind: "process"})
